@@ -20,6 +20,13 @@ EXTENDS VerifCommon
 
 CONSTANTS MaxParts          \* parts per segment in the bounded model
 
+\* Named deviations of the code from the statement (layer 1 switches). TRUE = the code shows the
+\* deviation. The defaults in the cfg files describe the current tree:
+CONSTANTS
+    DevTornTailFailsGet,     \* C27-F1 (known): /get fails when the window reaches a half-written part
+    DevTimescaleZeroExits    \* C27-F2 = C28-F1 (fixed in 3adcf73): a zero-filled header remainder
+                             \* (mvhd timescale 0) made the process exit
+
 Modes == {"cut", "zero", "garbage"}
 HdrZones  == <<"ftyp.h", "ftyp.b", "moov.h", "moov.b">>
 PartZones == <<"moof.h", "moof.b", "mdat.h", "mdat.b">>
@@ -149,12 +156,63 @@ ClassOf == [k |-> cls.k, z |-> cls.z, zone |-> IF cls.z = 0 THEN "-" ELSE ZoneNa
             hdr |-> HeaderOK(disk), parts |-> Cardinality(Served(disk))]
 EmitClasses == crashed => Emit("CLASS", ClassOf)
 
-\* ---------------------------------------------------------------- prediction, as a function of the class
-\* (used by TraceRecFile: the prediction is recomputed from the class, never copied from the harness)
+\* ---------------------------------------------------------------- what the statement requires, per class
+\* (used by TraceRecFile: recomputed from the class, never copied from the harness)
 ClassHeaderOK(c) == c.k >= 1
 ClassParts(c)    == IF c.k >= 1 THEN c.k - 1 ELSE 0
 ClassPredictionSound ==
     crashed => /\ ClassHeaderOK(cls) = HeaderOK(disk)
                /\ ClassParts(cls) = Cardinality(Served(disk))
+
+\* ---------------------------------------------------------------- layer 1: the code's readers, per class
+\* internal/playback/segment_fmp4.go as of cc06103. Where the outcome depends on the byte at which a
+\* zone is torn the operators return the SET of outcomes the code can show.
+InWrite(c)  == c.z > 0
+ZoneOf(c)   == IF c.z = 0 THEN "-" ELSE ZoneName(c.k, c.z)
+Filled(c)   == c.mode \in {"zero", "garbage"}
+\* segmentFMP4ReadHeader: needs ftyp, the moov header and a moov body mediacommon accepts; a
+\* zero-filled or stale remainder late in the moov body (user data) still parses
+L1HeaderReadable(c) ==
+    IF c.k >= 1 THEN {TRUE}
+    ELSE IF ZoneOf(c) = "moov.b" /\ c.torn /\ Filled(c) THEN {TRUE, FALSE}
+    ELSE {FALSE}
+\* the process exits (old behaviour only): integer division by the mvhd timescale
+L1MayExit(c) == DevTimescaleZeroExits /\ c.k = 0 /\ ZoneOf(c) = "moov.b" /\ c.mode = "zero"
+\* /get over the earlier segment and this one, given that this one's header was readable:
+\* [ok, parts] = answered with data? how many parts of this segment are served completely?
+\* seekAndMux fails as a whole (nothing is served, not even the earlier segment) when
+\* ReadBoxStructure meets a box that overruns the file or a payload it cannot read.
+Out(ok, n) == [ok |-> ok, parts |-> n]
+L1Get(c) ==
+    LET n == ClassParts(c)
+        fail == IF DevTornTailFailsGet THEN {Out(FALSE, 0)} ELSE {Out(TRUE, n)}
+    IN  IF c.k = 0 \/ ~InWrite(c) THEN {Out(TRUE, n)}
+        ELSE CASE ZoneOf(c) = "moof.h" -> IF c.mode = "garbage" THEN fail \cup {Out(TRUE, n)}  \* stale size may overrun the file
+                                          ELSE {Out(TRUE, n)}            \* fewer than 8 bytes / zero size: end of file
+               [] ZoneOf(c) = "moof.b" -> IF c.mode = "cut" \/ ~c.torn THEN fail
+                                          ELSE fail \cup {Out(TRUE, n)}   \* filled trun entries may parse
+               [] ZoneOf(c) = "mdat.h" -> IF c.mode = "cut" THEN fail
+                                          ELSE IF c.mode = "garbage" /\ c.torn THEN fail \cup {Out(TRUE, n)}
+                                          ELSE {Out(TRUE, n)}
+               [] ZoneOf(c) = "mdat.b" -> IF c.mode = "cut" THEN fail
+                                          ELSE {Out(TRUE, n), Out(TRUE, n + 1)} \* filler may equal the lost bytes
+               [] OTHER -> {Out(TRUE, n)}
+\* samples beyond the complete parts (payload zero / stale, sizes from a filled trun) can be served
+L1ExtrasPossible(c) == c.k >= 1 /\ InWrite(c) /\ Filled(c) /\ ZoneOf(c) \in {"moof.b", "mdat.h", "mdat.b"}
+\* an unreadable header fails every request that reaches the file, /list for the whole path
+L1GetWhenHeaderUnreadable == Out(FALSE, 0)
+\* /list: needs every header and, for a segment whose header duration is 0, one moof+mdat pair whose
+\* mdat header is on disk (segmentFMP4ReadDurationFromParts seeks past the payload without reading it)
+L1ListOK(c, hdr) ==
+    hdr /\ (c.k >= 2 \/ (c.k = 1 /\ ZoneOf(c) = "mdat.b"))
+
+\* every layer-1 outcome either satisfies the statement or is one of the named deviations
+Satisfies(c, o) == ClassHeaderOK(c) => (o.ok /\ o.parts >= ClassParts(c))
+DeviationsExplainAll ==
+    crashed =>
+      /\ \A o \in L1Get(cls) :
+            Satisfies(cls, o) \/ (DevTornTailFailsGet /\ InWrite(cls) /\ cls.k >= 1 /\ ~o.ok)
+      /\ L1MayExit(cls) => DevTimescaleZeroExits
+      /\ (ClassHeaderOK(cls) => L1HeaderReadable(cls) = {TRUE})
 
 =============================================================================
